@@ -43,7 +43,10 @@ OPS = ([("use_name", "numpy"), ("use_name", "casadi"), ("use_name", "bogus"), ("
        # an explicit engine object that is FALSY (a user-defined engine with __len__ == 0 / __bool__ False) is an engine
        # all the same; and an explicit NumPy engine keeps its OWN variable fill when another NumPy engine with another
        # fill was created (and selected) after it
-       + [("step", "spyNP0"), ("step_two_fills",)])
+       + [("step", "spyNP0"), ("step_two_fills",)]
+       # the caller edits the dictionary get_available_engines() returned (removes 'numpy', adds an alias 'np'): the registry
+       # itself is untouched - 'numpy' can still be selected, 'np' is still unknown
+       + [("avail_mutate",), ("use_name", "np")])
 
 KIND_TYPES = {"numpy": (np.ndarray, np.floating, float), "SX": (cs.SX,), "MX": (cs.MX,)}
 
@@ -220,6 +223,15 @@ def run_history(spec: NetSpec, hist, st: Stats):
                 if engines.get_current_engine() is not current or sym_metanet.engine is not current:
                     bad("step/selection-changed", f"current engine is now {engines.get_current_engine()!r}")
                     current = engines.get_current_engine()
+            elif k == "avail_mutate":
+                info = engines.get_available_engines()
+                names = sorted(info)
+                if names != ["casadi", "numpy"]:
+                    bad("available/wrong", f"get_available_engines() lists {names}")
+                info.pop("numpy", None)
+                info["np"] = info.get("casadi")
+                if engines.get_current_engine() is not current or sym_metanet.engine is not current:
+                    bad("use/selection-changed-by-refused-call", "editing the returned dictionary changed the current engine")
             elif k == "step_two_fills":
                 e1 = env.numpy_engine(2.0)
                 e2 = engines.use("numpy", var_type=7.0)  # created later, with another fill, and selected
